@@ -382,6 +382,30 @@ static char *gen_random(void)
     return s;
 }
 
+/* thorough tier only: more tokens than a 16-bit counter can hold (split only; the other functions are quadratic here) */
+static void many_tokens_case(void)
+{
+    size_t want = 66000, n = 0;
+    char *s0 = malloc(2 * want + 1);
+    for (size_t i = 0; i < want; i++) { s0[n++] = (char) ('a' + i % 26); s0[n++] = ' '; }
+    s0[--n] = 0;
+    char *s = vh_heapstr(s0);
+    vh_op("split(NULL, %zu one-letter tokens separated by blanks)", want);
+    char **sl = (char **) spiftool_split(NULL, (spif_charptr_t) s);
+    vh_evals(1);
+    VH_CHECK(sl != NULL, "split:many-tokens", "split of %zu tokens returned NULL", want);
+    size_t blk = vh_alloc_size(sl) / sizeof(char *), ns = 0;
+    if (vh_have_asan()) { while (ns < blk && sl[ns]) ns++; VH_CHECK(ns < blk, "split:unterminated-list", "no NULL sentinel inside the %zu-entry list block", blk); }
+    else while (sl[ns]) ns++;
+    VH_CHECK(ns == want, "split:many-tokens", "split of %zu blank-separated tokens returned a list of %zu", want, ns);
+    for (size_t i = 0; i < ns; i++)
+        VH_CHECK(sl[i][0] == (char) ('a' + i % 26) && sl[i][1] == 0, "split:many-tokens", "token %zu of %zu is %s", i, want, vh_qs(sl[i]));
+    for (size_t i = 0; i < ns; i++) free(sl[i]);
+    free(sl); free(s); free(s0);
+    vh_count("many_tokens_cases", 1);
+    vh_cov(vh_mix(40, want));
+}
+
 int main(int argc, char **argv)
 {
     vh_init(argc, argv, "C12");
@@ -404,6 +428,7 @@ int main(int argc, char **argv)
             long idx = vh_case_idx;
             char small[16], *s;
             int is_small = idx < E;
+            if (idx == E && L == 8) { many_tokens_case(); vh_case_done(); continue; }
             if (is_small) { small_decode(idx, small); s = small; }
             else s = gen_random();
             for (int d = 0; d < 3; d++) check_split_tok_join(s, d, is_small);
